@@ -39,6 +39,10 @@ Proof. exact fits_read_total. Qed.
 Theorem C12_mom_reader_total : forall b, mom_read b <> MomErr FFuel.
 Proof. exact mom_read_total. Qed.
 
+(** same for the model of the sky-map reader up to the pixel values (header cards, keyword loop, size guards, rows available) *)
+Theorem C12_skymap_reader_total : forall b, sky_read b <> SkyErr FFuel.
+Proof. exact sky_read_total. Qed.
+
 (** whatever the characters, a document the ASCII reader accepts is a valid, ascending, in-domain
     element list of depth <= MAX_DEPTH (C07_ascii_reader_sound, restated for this property) *)
 Theorem C12_ascii_accepts_only_valid : forall (sortf : qty -> list aelem -> list aelem),
@@ -82,3 +86,4 @@ Print Assumptions C12_skymap_guard_without_n_pack_refuted.
 Print Assumptions C12_fits_reader_total.
 Print Assumptions C12_ascii_accepts_only_valid.
 Print Assumptions C12_mom_reader_total.
+Print Assumptions C12_skymap_reader_total.
